@@ -519,4 +519,140 @@ theorem not_both {p : Tally} (h : Premise p) (blk : Block) :
     simp only [libRejectsAt, libPassesAt, Bool.and_eq_true, decide_eq_true_eq] at hr hp
     cases e <;> simp only [Bool.false_eq_true, if_true, if_false, cast] at hr hp hk <;> omega
 
+/-! ## 6. Stability (reused by C03/C05) -/
+
+/-- block `b'` is not earlier than `b` -/
+def later (b b' : Block) : Prop := b.height ≤ b'.height ∧ b.time ≤ b'.time
+
+theorem expired_mono {e : Expiration} {b b' : Block} (hl : later b b') (he : e.isExpired b = true) :
+    e.isExpired b' = true := by
+  obtain ⟨h1, h2⟩ := hl
+  cases e <;> simp only [Expiration.isExpired, decide_eq_true_eq] at he ⊢ <;> first | omega | exact he
+
+def noVotes : Votes := ⟨0, 0, 0, 0⟩
+
+theorem plus_noVotes (v : Votes) : plus v noVotes = v := by cases v; rfl
+
+/-- Once passed, always passed: if `is_passed` holds at block `b` it holds at every later block `b'`,
+also after further votes `c` (votes are only accepted before expiry: `c` is empty if the proposal
+had already expired at `b`). -/
+theorem passed_stable {p : Tally} (h : Premise p) {b b' : Block} (hl : later b b')
+    (hp : isPassed p b = .ok true) (c : Votes) (hc : cast (plus p.votes c) ≤ p.totalWeight)
+    (hvote : p.expires.isExpired b = true → c = noVotes) :
+    isPassed { p with votes := plus p.votes c } b' = .ok true := by
+  have h' : Premise { p with votes := plus p.votes c } := ⟨hc, h.total_u64, h.valid⟩
+  rw [isPassed_eq h' b']
+  rw [isPassed_eq h b] at hp
+  have hp := Except.ok.inj hp
+  apply congrArg
+  cases he : p.expires.isExpired b with
+  | false =>
+    rw [he] at hp
+    exact libPassesAt_open_completion h.valid h.total_u64 hp c hc _
+  | true =>
+    rw [he] at hp
+    have he' : p.expires.isExpired b' = true := expired_mono hl he
+    show libPassesAt p.threshold p.totalWeight (plus p.votes c) (p.expires.isExpired b') = true
+    rw [hvote he, plus_noVotes, he']; exact hp
+
+/-- the same tally stays passed as time goes by -/
+theorem passed_stable_time {p : Tally} (h : Premise p) {b b' : Block} (hl : later b b')
+    (hp : isPassed p b = .ok true) : isPassed p b' = .ok true := by
+  have := passed_stable h hl hp noVotes (by rw [plus_noVotes]; exact h.tally_le) (fun _ => rfl)
+  rw [plus_noVotes] at this
+  exact this
+
+/-- hence the reported status of an Open-stored proposal that is Passed stays Passed -/
+theorem status_passed_stable {p : Tally} (h : Premise p) {b b' : Block} (hl : later b b')
+    (hs : currentStatus p b = .ok .passed) (c : Votes) (hc : cast (plus p.votes c) ≤ p.totalWeight)
+    (hvote : p.expires.isExpired b = true → c = noVotes) :
+    currentStatus { p with votes := plus p.votes c } b' = .ok .passed := by
+  unfold currentStatus at hs ⊢
+  by_cases hst : p.status ≠ .open
+  · rw [if_pos hst] at hs; rw [if_pos hst]; exact hs
+  · rw [if_neg hst] at hs; rw [if_neg hst]
+    obtain ⟨pb, hpb⟩ := (no_panic h b).1
+    rw [hpb, ok_bind] at hs
+    cases pb with
+    | true => rw [passed_stable h hl hpb c hc hvote, ok_bind]; rfl
+    | false =>
+      exfalso
+      obtain ⟨rb, hrb⟩ := (no_panic h b).2.1
+      rw [hrb, ok_bind] at hs
+      simp only [Bool.false_eq_true, if_false] at hs
+      split at hs <;> cases hs
+
+/-! ## 7. The excluded region -/
+
+/-- Outside the premise: an `AbsoluteCount` weight above the total (rejected by
+`Threshold::validate`; reachable in cw3-flex only if the group shrinks later) makes `is_rejected`
+panic on the `u64` subtraction `total_weight - weight`, while `is_passed` is simply `false` for
+tallies within the total. -/
+theorem count_above_total {p : Tally} {k : Nat} (blk : Block) (ht : p.threshold = .absoluteCount k)
+    (hk : p.totalWeight < k) :
+    (∃ e, isRejected p blk = .error e) ∧ (cast p.votes ≤ p.totalWeight → isPassed p blk = .ok false) := by
+  constructor
+  · refine ⟨"underflow.u64", ?_⟩
+    unfold isRejected; rw [ht]
+    simp only []
+    rw [subU64_bind_of_lt hk]
+  · intro hc
+    rw [isPassed_count blk ht]
+    unfold cast at hc
+    exact congrArg _ (decide_eq_false (by omega))
+
+/-! ## 8. The hypotheses are satisfiable (closed instances, by evaluation) -/
+
+/-- decidable equality of results, only to let `decide` evaluate the closed examples below -/
+@[instance_reducible] def decEqRes {α : Type} [DecidableEq α] : DecidableEq (Res α)
+  | .ok a, .ok b => if h : a = b then isTrue (h ▸ rfl) else isFalse (fun e => h (Except.ok.inj e))
+  | .error a, .error b => if h : a = b then isTrue (h ▸ rfl) else isFalse (fun e => h (Except.error.inj e))
+  | .ok _, .error _ => isFalse (fun e => nomatch e)
+  | .error _, .ok _ => isFalse (fun e => nomatch e)
+attribute [local instance] decEqRes
+
+/-- 9-decimal example: 51 % of 15 with 2 abstaining needs `⌈13·0.51⌉ = 7` -/
+example : votesNeeded 13 510000000000000000 = 7 := by decide
+/-- 18-digit example where the library is one vote more permissive than exact: `w = 2`,
+`a = 0.5 + 10^-18` ("more than half"): exact `⌈w·a⌉ = 2`, library `1` -/
+example : votesNeeded 2 500000000000000001 = 1 ∧ exactCeil 2 500000000000000001 = 2 := by decide
+/-- the top of the range: no wrap-around at `w = 2^64 - 1`, `a = 1` -/
+example : votesNeeded U64_MAX DEC_ONE = U64_MAX := by decide
+
+def exQuorum : Tally :=
+  { status := .open, threshold := .thresholdQuorum 600000000000000000 400000000000000000,
+    totalWeight := 30, votes := ⟨18, 3, 2, 0⟩, expires := .atHeight 100 }
+
+example : Premise exQuorum := ⟨by decide, by decide, by decide⟩
+/-- passed early (block 50 < 100): 18 ≥ ⌈0.6·28⌉ = 17 and 23 ≥ 12 -/
+example : isPassed exQuorum ⟨50, 0⟩ = .ok true ∧ isRejected exQuorum ⟨50, 0⟩ = .ok false ∧
+    exQuorum.expires.isExpired ⟨50, 0⟩ = false := by decide
+/-- a completion (all 7 outstanding vote no), evaluated after expiry: still passed, 18 ≥ ⌈0.6·28⌉ -/
+example : isPassed { exQuorum with votes := plus exQuorum.votes ⟨0, 7, 0, 0⟩ } ⟨100, 0⟩ = .ok true := by decide
+
+def exRejected : Tally :=
+  { status := .open, threshold := .absolutePercentage 666666667000000000,
+    totalWeight := 18446744073709551615, votes := ⟨5, 6148914691236517205, 10, 0⟩, expires := .never }
+
+example : Premise exRejected := ⟨by decide, by decide, by decide⟩
+example : isRejected exRejected ⟨1, 1⟩ = .ok true ∧ isPassed exRejected ⟨1, 1⟩ = .ok false ∧
+    currentStatus exRejected ⟨1, 1⟩ = .ok .rejected := by decide
+
+/-- the D1 witness: everybody abstains -/
+def exAllAbstain : Tally :=
+  { status := .open, threshold := .absolutePercentage 500000000000000000,
+    totalWeight := 10, votes := ⟨0, 0, 10, 0⟩, expires := .atHeight 100 }
+
+example : Premise exAllAbstain := ⟨by decide, by decide, by decide⟩
+/-- … not passed; Open while voting, Rejected once expired -/
+example : isPassed exAllAbstain ⟨100, 0⟩ = .ok false ∧ currentStatus exAllAbstain ⟨50, 0⟩ = .ok .open ∧
+    currentStatus exAllAbstain ⟨100, 0⟩ = .ok .rejected := by decide
+
+/-- the excluded region is really excluded by `validate`, and really panics -/
+def exAbove : Tally :=
+  { status := .open, threshold := .absoluteCount 11, totalWeight := 10, votes := ⟨1, 1, 0, 0⟩, expires := .never }
+
+example : (Threshold.absoluteCount 11).validate 10 ≠ .ok () ∧
+    isRejected exAbove ⟨1, 1⟩ = .error "underflow.u64" ∧ isPassed exAbove ⟨1, 1⟩ = .ok false := by decide
+
 end CwPlus.Props.C04
